@@ -14,6 +14,7 @@ from vlib.common.core import Collector, case_rng, digest, guarded
 
 ID = "C19"
 LEVEL = "exploration"
+MANIFEST = {'engine': 'E9-builder', 'kind': 'generated builder programs against an independent well-formedness oracle', 'technique': 'runtime oracle on generated builder programs: independent well-formedness classifier + value-binding model + persistence digests re-checked after every builder call', 'text': 'Each generated builder program (exec-synthesised callables, with_values, with_node, with_edge with existing/dangling endpoints) runs on the real builders; build() must return an Either, reject exactly what the independent classifier says dangles or conflicts, and an accepted job is re-checked edge by edge; earlier builders and jobs are digest-checked for mutation after every call.', 'note': 'Annotations restricted to builtins/absent; Any-vs-concrete pairs accepted either way; compatibility = issubclass.'}
 RULE = (
     "case = one builder program: 1-5 tasks from exec-synthesised callables (positional-or-keyword, keyword-only, "
     "defaults, *args/**kwargs, annotations absent or int/float/str/bool/list/dict, return annotation likewise), "
